@@ -96,6 +96,32 @@ theorem legacy_route_complete_partial (d : Doc) (r : Req) (sp : List (Str × Str
   | none => simp [hmm] at hm
   | some kv => exact ⟨_, _, _, rfl⟩
 
+/-- no_match_is_error (legacy): no matching server, or no trie match and no path key spelled by the remaining path,
+    yields path-not-found; and the router never answers with the nil-dereference outcome -/
+theorem legacy_no_match_is_error (d : Doc) (r : Req) (hb : legacyBuildOK d = true) :
+    (legacyServer d r = none → legacyFind d r = .notFound) ∧
+    (∀ sp rem, legacyServer d r = some (sp, rem) → legacyMatch d r.method rem = none →
+        legacyFind d r = .notFound ∨ legacyFind d r = .methodNotAllowed) ∧
+    legacyFind d r ≠ .panic := by
+  refine ⟨?_, ?_, ?_⟩
+  · intro h; simp [legacyFind, hb, h]
+  · intro sp rem hs hm
+    simp only [legacyFind, hb, Bool.not_true, Bool.false_eq_true, if_false, hs, hm]
+    split
+    · exact Or.inl rfl
+    · split
+      · exact Or.inl rfl
+      · exact Or.inr rfl
+  · unfold legacyFind
+    simp only [hb, Bool.not_true, Bool.false_eq_true, if_false]
+    split
+    · simp
+    · split
+      · simp
+      · split
+        · simp
+        · split <;> simp
+
 /-! ## gorillamux router -/
 
 /-- every compiled mux route comes from a declared path item and one server -/
@@ -111,13 +137,6 @@ theorem gorilla_routes_declared {d : Doc} {rs : List GRoute} (h : gorillaRoutes 
     simp only [List.mem_flatMap, List.mem_map] at this
     obtain ⟨pd, hpd, s, _, hs⟩ := this
     exact ⟨pd, (mem_inMatchingOrder _ _).1 hpd, s, hs⟩
-
-theorem gRouteMatch_path {r : GRoute} {req : Req} {b : List (Str × Str)} (h : gRouteMatch r req = some b) :
-    ∃ pb, gmatch '/' r.pathToks req.path = some pb := by
-  unfold gRouteMatch at h
-  split at h
-  · simp at h
-  · rename_i pb hpb; exact ⟨pb, hpb⟩
 
 /-- route_sound (gorillamux, full strength): a returned route carries the request method, its template is declared
     with that method, and some assignment of non-empty slash-free values to the variables of
